@@ -5,7 +5,7 @@ From Coq Require Import ExtrOcamlBasic.
 From Grog Require Import Str Label Graph Select.
 Extraction Language OCaml.
 Extraction "model.ml" Label.parse_label Label.print_label Label.parse_patterns_or_all Label.parse_patterns
-  Graph.chain Graph.ladder Graph.topob Graph.wf_graphb Graph.dependants
+  Graph.chain Graph.ladder Graph.topob Graph.wf_graphb Graph.deps Graph.dependants
   Select.select_for_build Select.selected_count Select.platform_skipped Select.select_targets
   Select.spec_roots Select.roots
   Select.ancestors_paths Select.descendants_paths Select.ancestors_set Select.descendants_set
